@@ -165,6 +165,10 @@ def x9(ctx, tab, sites, scc=()):
                 c = CONSTANTS.get((callee, pn))
                 if c and c[0] == what and caller in c[1]:
                     continue
+                # the same constant handed in by another function that plays the entry role: outside the recursion, without a parameter
+                # of that name of its own (so nothing of the caller is dropped), in the façade crate or private to it
+                if c and c[0] == what and pn not in names and caller not in scc and crate == 'sv-parser' and any(x_ in c[1] for x_ in tab if tab[x_][0] == 'sv-parser'):
+                    continue
                 if pn in DEPTH:
                     # a reset of a ranking counter inside the recursion is X8's finding; a wrong constant elsewhere is ours
                     if caller in scc and callee in scc:
